@@ -445,12 +445,19 @@ class SArr(ndarray):
 
     def astype(self, dt, **k):
         dt = _model_dtype(dt)
-        if not self.symbolic:
+        has_tok = self.a.dtype == object and builtins.any(isinstance(e, str) and e.startswith('SYMF') for e in self.a.flat)
+        if not self.symbolic and not has_tok:
             a = self.a if self.a.dtype != object else rnp.array(self.a.tolist(), dtype=self.dt).reshape(self.a.shape)
             return mk(a.astype(dt, **k))
         def c(e):
             if is_sym(e):
                 return cast(e, dt)
+            if isinstance(e, str) and e.startswith('SYMF') and core.CTX is not None and dt.kind == 'f':
+                reg = core.CTX.notes.get('symfloat', {})
+                try:
+                    return reg[int(e[4:])]                   # literal token of a symbolic number
+                except (KeyError, ValueError):
+                    pass
             return rnp.asarray(e).astype(dt).item() if dt != object else e
         return mk(_frompy(c, 1, 1)(self.a), dt)
 
@@ -507,7 +514,12 @@ class SArr(ndarray):
             r = self.a[key]
             if isinstance(r, rnp.ndarray):
                 return SArr(r, self.dt)
-            return _norm_elem(r) if self.a.dtype == object else r
+            if self.a.dtype == object:
+                r = _norm_elem(r)
+                if not is_sym(r) and isinstance(r, (bool, int, float)) and self.dt.kind in 'fiub':
+                    return self.dt.type(r)          # concrete element of a mixed array: numpy scalar of the array dtype
+                return r
+            return r
         if mode == 'lazy':
             return self[key.cond]
         if mode == 'mask':
@@ -993,6 +1005,25 @@ class _MA:
 
 
 ma = _MA()
+
+
+# ---- file readers (environment stub: a registered path yields the matrix the file denotes) -------
+
+VMATRIX = {}
+
+
+def loadtxt(fname, *a, **k):
+    if isinstance(fname, str) and fname in VMATRIX:
+        m = VMATRIX[fname]
+        return m.copy() if isinstance(m, SArr) else asarray(m)
+    return delegate(rnp.loadtxt, fname, *a, **k)
+
+
+def genfromtxt(fname, *a, **k):
+    if isinstance(fname, str) and fname in VMATRIX:
+        m = VMATRIX[fname]
+        return m.copy() if isinstance(m, SArr) else asarray(m)
+    return delegate(rnp.genfromtxt, fname, *a, **k)
 
 
 # ---- constructors -------------------------------------------------------------------------------
